@@ -808,6 +808,85 @@ fn run_large(ctx: &mut Ctx, rep: &mut Report) {
     }
 }
 
+/// A wide, well conserved protein motif made of residues that are rare in the background: windows on the block score
+/// far more than 128 bits under the hold-out matrix (position weights 2^score leave the f32 range, not the f64 range).
+pub fn conserved_dataset() -> Dataset {
+    // protein ranks: A0 C1 D2 E3 F4 G5 H6 I7 K8 L9 M10 N11 P12 Q13 R14 S15 T16 V17 W18 Y19 X20
+    const BLOCK: [u8; 20] = [18, 1, 6, 10, 19, 18, 18, 1, 6, 6, 10, 19, 1, 19, 10, 18, 6, 1, 10, 18];
+    const COMMON: [u8; 15] = [0, 2, 3, 5, 8, 9, 15, 16, 17, 11, 13, 14, 7, 12, 4];
+    const RARE: [u8; 5] = [18, 1, 6, 10, 19];
+    let seqs = (0..6usize)
+        .map(|k| {
+            let at = 17 + 19 * k; // block position differs per sequence
+            let mut v: Vec<u8> = (0..150usize).map(|i| COMMON[(i * 7 + k * 3 + i / 15) % 15]).collect();
+            v[at..at + 20].copy_from_slice(&BLOCK);
+            v[(at + 60) % 150] = RARE[k % 5]; // one stray rare residue per sequence (keeps its background frequency above zero)
+            v
+        })
+        .collect();
+    Dataset { alpha: "protein", seqs, width: 20, pad: None, pre_wrap: None, spare: 0 }
+}
+
+fn run_conserved(ctx: &mut Ctx, rep: &mut Report) {
+    rep.space(
+        "conserved",
+        "6 protein sequences of 150 residues sharing one 20-residue block of residues that are rare elsewhere (W, C, H, M, Y; one stray occurrence per sequence), width 20, both modes, 3 dispatcher arms x 4 fixed RNG scripts of 6 steps \
+         (2 scripts start with every sequence aligned on the block, 2 start elsewhere); windows on the block score more than 128 bits under the hold-out matrix; no search, the recount oracle on every step and no panic",
+    );
+    let ds = conserved_dataset();
+    let params = [Params { zoops: false, seeds: 0, inertia: 0, patience: 0 }, Params { zoops: true, seeds: 3, inertia: 1, patience: 2 }];
+    let mut idx = 2000u64;
+    for pr in &params {
+        for arm in cfgs::FORCED {
+            for script in 0..4usize {
+                let mine = ctx.mine(idx);
+                idx += 1;
+                if !mine {
+                    continue;
+                }
+                let n = 150 - 20 + 1;
+                let mut init: Vec<f64> = (0..ds.seqs.len())
+                    .map(|k| if script < 2 { ((17 + 19 * k) as f64 + 0.25) / n as f64 } else { ((k * 5 + script * 3) as f64 * 0.173 + 0.061) % 1.0 })
+                    .collect();
+                if pr.zoops {
+                    // Floyd's algorithm draws from 0..=j for j in len-seeds..len: answer a quarter into a bucket (never in a rejection zone)
+                    let len = ds.seqs.len();
+                    init.extend((len - pr.seeds..len).enumerate().map(|(i, j)| (((i + script) % (j + 1)) as f64 + 0.25) / (j + 1) as f64));
+                }
+                // hold-out draw: a quarter into the bucket of sequence (i + script) mod nz (nz = seeds during the inertia steps)
+                let steps: Vec<[f64; 2]> = (0..6usize)
+                    .map(|i| {
+                        let nz = if pr.zoops && i < pr.inertia { pr.seeds } else { ds.seqs.len() };
+                        [(((i + script) % nz) as f64 + 0.25) / nz as f64, ((i * 3 + script) as f64 * 0.377 + 0.013) % 1.0]
+                    })
+                    .collect();
+                let h = Hist { init: init.clone(), steps: steps.clone() };
+                let sig = |s: &str| format!("C16 {} {} {} conserved {}", ds.alpha, if pr.zoops { "zoops" } else { "oops" }, cfgs::arm_name(arm), s);
+                rep.eval_distinct(true);
+                match run_ds(&ds, pr, arm, &init, &steps) {
+                    Err(p) => rep.violation(sig(&format!("panic {}", vx_core::util::panic_class(&p))), format!("panic: {}", p), || hist_json(&ds, pr, arm, &h)),
+                    Ok(r) => {
+                        rep.add_states(r.steps.len() as u64 + 1, r.steps.len() as u64, r.steps.len() as u64, r.steps.len() as u64);
+                        if r.overrun > 0 {
+                            rep.machinery(format!("conserved: script overrun {}", r.overrun));
+                        }
+                        if let Err((s, m)) = check_state(&ds, &r.init, &r.init_public) {
+                            rep.violation(sig(&format!("initial {}", s)), short_msg(&m), || hist_json(&ds, pr, arm, &h));
+                            continue;
+                        }
+                        for st in &r.steps {
+                            if let Err((s, m)) = check_step(&ds, pr, st) {
+                                rep.violation(sig(&s), short_msg(&m), || hist_json(&ds, pr, arm, &h));
+                                break;
+                            }
+                        }
+                    }
+                }
+            }
+        }
+    }
+}
+
 fn short_msg(m: &str) -> String {
     if m.len() > 600 {
         format!("{}...", &m[..600])
@@ -830,6 +909,9 @@ fn large_json(pr: &Params, arm: Forced, h: &Hist) -> Value {
 pub fn run(ctx: &mut Ctx, rep: &mut Report) {
     if ctx.wants("large") {
         run_large(ctx, rep);
+    }
+    if ctx.wants("conserved") {
+        run_conserved(ctx, rep);
     }
     if !ctx.wants("sampler") {
         return;
